@@ -85,10 +85,26 @@ fn labels_of(e: Error) -> Vec<String> {
     e.flatten().into_iter().map(|x| x.to_string()).collect()
 }
 
+/// Holds the accumulator under test and defuses it when an oracle returns early, so that a detected
+/// violation is reported as such instead of tripping the accumulator's own drop bomb.
+struct Defuse(Option<Accumulator>);
+impl Drop for Defuse {
+    fn drop(&mut self) {
+        if let Some(a) = self.0.take() {
+            let _ = a.into_inner();
+        }
+    }
+}
+
 /// Interpret the history against the real accumulator and the model at once.
 /// Returns Err on the first divergence.
 pub fn check(ctx: &Ctx, h: &History) -> Result<(), Fail> {
-    let mut acc: Accumulator = Error::accumulator();
+    let mut guard = Defuse(Some(Error::accumulator()));
+    macro_rules! acc {
+        () => {
+            guard.0.as_mut().expect("live accumulator")
+        };
+    }
     // model: recorded errors, each a list of labels (a bundle records as one error with several leaves)
     let mut rec: Vec<Vec<String>> = vec![];
     let mut next = 0usize;
@@ -117,18 +133,18 @@ pub fn check(ctx: &Ctx, h: &History) -> Result<(), Fail> {
         match op {
             Op::Push => {
                 let (e, l) = fresh(1, &mut next);
-                acc.push(e);
+                acc!().push(e);
                 rec.push(l);
                 recording_ops += 1;
             }
             Op::PushBundle(k) => {
                 let (e, l) = fresh(*k as usize, &mut next);
-                acc.push(e);
+                acc!().push(e);
                 rec.push(l);
                 recording_ops += 1;
             }
             Op::HandleOk(v) => {
-                let r = acc.handle(Ok::<u16, Error>(*v));
+                let r = acc!().handle(Ok::<u16, Error>(*v));
                 ensure!(
                     r == Some(*v),
                     "c05:handle-ok",
@@ -140,7 +156,7 @@ pub fn check(ctx: &Ctx, h: &History) -> Result<(), Fail> {
             }
             Op::HandleErr => {
                 let (e, l) = fresh(1, &mut next);
-                let r = acc.handle(Err::<u16, Error>(e));
+                let r = acc!().handle(Err::<u16, Error>(e));
                 ensure!(
                     r.is_none(),
                     "c05:handle-err",
@@ -152,7 +168,7 @@ pub fn check(ctx: &Ctx, h: &History) -> Result<(), Fail> {
                 recording_ops += 1;
             }
             Op::HandleInOk(v) => {
-                let r = acc.handle_in(|| Ok::<u16, Error>(*v));
+                let r = acc!().handle_in(|| Ok::<u16, Error>(*v));
                 ensure!(
                     r == Some(*v),
                     "c05:handle-in-ok",
@@ -164,7 +180,7 @@ pub fn check(ctx: &Ctx, h: &History) -> Result<(), Fail> {
             }
             Op::HandleInErr => {
                 let (e, l) = fresh(1, &mut next);
-                let r = acc.handle_in(|| Err::<u16, Error>(e));
+                let r = acc!().handle_in(|| Err::<u16, Error>(e));
                 ensure!(
                     r.is_none(),
                     "c05:handle-in-err",
@@ -182,15 +198,16 @@ pub fn check(ctx: &Ctx, h: &History) -> Result<(), Fail> {
                     es.push(e);
                     rec.push(l);
                 }
-                acc.extend(es);
+                acc!().extend(es);
                 if *k > 0 {
                     recording_ops += 1;
                 }
             }
             Op::Checkpoint => {
                 checkpoints += 1;
-                match acc.checkpoint() {
+                match guard.0.take().expect("live accumulator").checkpoint() {
                     Ok(a) => {
+                        guard.0 = Some(a);
                         ensure!(
                             rec.is_empty(),
                             "c05:checkpoint-ok-nonempty",
@@ -200,7 +217,6 @@ pub fn check(ctx: &Ctx, h: &History) -> Result<(), Fail> {
                         );
                         // whether the fresh accumulator is armed is observed by histories that
                         // end in Drop after this point
-                        acc = a;
                     }
                     Err(e) => {
                         ensure!(
@@ -242,8 +258,8 @@ pub fn check(ctx: &Ctx, h: &History) -> Result<(), Fail> {
     match &h.end {
         End::Finish | End::FinishWith(_) => {
             let (res, val): (Result<u16, Error>, u16) = match &h.end {
-                End::Finish => (acc.finish().map(|()| 0), 0),
-                End::FinishWith(v) => (acc.finish_with(*v), *v),
+                End::Finish => (guard.0.take().expect("live").finish().map(|()| 0), 0),
+                End::FinishWith(v) => (guard.0.take().expect("live").finish_with(*v), *v),
                 _ => unreachable!(),
             };
             match res {
@@ -293,7 +309,7 @@ pub fn check(ctx: &Ctx, h: &History) -> Result<(), Fail> {
             }
         }
         End::IntoInner => {
-            let v = acc.into_inner();
+            let v = guard.0.take().expect("live").into_inner();
             ensure!(
                 v.len() == rec.len(),
                 "c05:into-inner-len",
@@ -311,7 +327,8 @@ pub fn check(ctx: &Ctx, h: &History) -> Result<(), Fail> {
             );
         }
         End::Drop => {
-            let r = catch(move || drop(acc));
+            let a = guard.0.take().expect("live");
+            let r = catch(move || drop(a));
             match r {
                 Ok(()) => fail!(
                     "c05:drop-no-panic",
@@ -343,7 +360,7 @@ pub fn check(ctx: &Ctx, h: &History) -> Result<(), Fail> {
         }
         End::DropDuringUnwind => {
             // handled by the child-process driver; in-process nothing to do here
-            let _ = acc.finish();
+            let _ = guard.0.take().expect("live").finish();
         }
     }
     classify(ctx, h, recording_ops, checkpoints, "ran-to-end");
